@@ -27,7 +27,7 @@ CHUNK = 100
 ASSUMPTIONS = ["the compatibility table is the one in the Jelly specification: FLAT_TRIPLES, GRAPHS, SUBJECT_GRAPHS go "
                "with physical TRIPLES; FLAT_QUADS, DATASETS, NAMED_GRAPHS, TIMESTAMPED_NAMED_GRAPHS with QUADS/GRAPHS; "
                "UNSPECIFIED logical type goes with anything", "besides the normal interpreter, the reader-side lattice is repeated under python -O once per 1500 runs"]
-PROBES = ["optimized_runs", "fidelity_runs", "pairs_runs", "strict_runs", "forbidden_pairs_sent", "permitted_pairs_sent",
+PROBES = ["later_options_row_sent", "optimized_runs", "fidelity_runs", "pairs_runs", "strict_runs", "forbidden_pairs_sent", "permitted_pairs_sent",
           "small_name_table_sent", "big_table_sent", "bad_version_sent", "unicode_stream_names", "version2_written"]
 SHRINK_LISTS = ["ops"]
 
@@ -61,6 +61,9 @@ def generate(rng, run, tier):
             cases.append({"physical": physical, "logical": logical, "defect": defect, "names": names,
                           "prefixes": prefixes, "datatypes": datatypes, "version": version,
                           "delimited": rng.random() < 0.7, "integration": rng.choice(["generic", "rdflib"])})
+            if rng.random() < 0.4:
+                cases[-1]["position"] = "later"
+                cases[-1]["later_split"] = rng.random() < 0.5
         return {"kind": "optimized", "cases": cases, "ops": []}
     kind = rng.choice(["fidelity", "pairs", "pairs", "strict"])
     if kind == "fidelity":
@@ -103,9 +106,14 @@ def generate(rng, run, tier):
                                           big if which == "d" else datatypes)
         elif defect == "version":
             version = rng.choice([3, 4, 9999, 10000])
-        return {"kind": kind, "physical": physical, "logical": logical, "defect": defect,
+        plan = {"kind": kind, "physical": physical, "logical": logical, "defect": defect,
                 "names": names, "prefixes": prefixes, "datatypes": datatypes, "version": version,
                 "integration": rng.choice(["generic", "rdflib"]), "delimited": rng.random() < 0.7, "ops": []}
+        if rng.random() < 0.3:
+            # the lattice point as a *later* options row of the stream (same frame or the next frame)
+            plan["position"] = "later"
+            plan["later_split"] = rng.random() < 0.5
+        return plan
     physical = rng.choice([1, 2, 3])
     return {"kind": kind, "physical": physical, "integration": rng.choice(["generic", "rdflib"]),
             "delimited": rng.random() < 0.7, "n": rng.randint(1, 4), "ops": []}
@@ -198,19 +206,41 @@ def one_statement(physical):
 
 
 def pair_stream(plan):
-    """Hand-made stream for one lattice point: options row, entries, one statement."""
+    """Hand-made stream for one lattice point: options row, entries, one statement.
+
+    position == "later": the stream opens with the nearest *valid* options row (the same row with the defective
+    field repaired), carries one statement, then the lattice point's options row and a second statement - the
+    header rules hold for every options row of a stream, not only for the first."""
     ph, lt = plan["physical"], plan["logical"]
     opts = refenc.make_opts(ph, lt, plan["names"], plan["prefixes"], plan["datatypes"], plan["version"])
-    rows = [wire.enc_row(("options", opts)), wire.enc_row(("prefix", 0, "http://e/")),
-            wire.enc_row(("name", 0, "s")), wire.enc_row(("name", 0, "p"))]
-    s_t, p_t, o_t = ("iri", 1, 0), ("iri", 0, 0), ("lit", "o", None)
-    if ph == 3:
-        rows += [wire.enc_row(("graph_start", ("default",))), wire.enc_row(("triple", s_t, p_t, o_t)),
-                 wire.enc_row(("graph_end",))]
-    elif ph == 2:
-        rows.append(wire.enc_row(("quad", s_t, p_t, o_t, ("default",))))
-    else:
-        rows.append(wire.enc_row(("triple", s_t, p_t, o_t)))
+    later = plan.get("position") == "later"
+    ph1 = ph if ph in (1, 2, 3) else 1
+
+    def statement_rows(second=False):
+        s_t, p_t, o_t = ("iri", 1, 0), ("iri", 0, 0), ("lit", "o", None)
+        if second:
+            s_t, p_t, o_t = ("iri", 1, 1), ("iri", 0, 2), ("lit", "o2", None)      # explicit ids: no new entries needed
+        if ph1 == 3:
+            return [wire.enc_row(("graph_start", ("default",))), wire.enc_row(("triple", s_t, p_t, o_t)),
+                    wire.enc_row(("graph_end",))]
+        if ph1 == 2:
+            return [wire.enc_row(("quad", s_t, p_t, o_t, ("default",)))]
+        return [wire.enc_row(("triple", s_t, p_t, o_t))]
+
+    entries = [wire.enc_row(("prefix", 0, "http://e/")), wire.enc_row(("name", 0, "s")), wire.enc_row(("name", 0, "p"))]
+    if not later:
+        rows = [wire.enc_row(("options", opts)), *entries, *statement_rows()]
+        return wire.write_stream([wire.Frame(rows)], plan["delimited"])
+    lt1 = lt if permitted(ph1, lt) else 0
+    first = refenc.make_opts(ph1, lt1, plan["names"] if 8 <= plan["names"] <= 4096 else 16,
+                             plan["prefixes"] if plan["prefixes"] <= 4096 else 8,
+                             plan["datatypes"] if plan["datatypes"] <= 4096 else 4,
+                             plan["version"] if plan["version"] in (1, 2) else 1)
+    rows = [wire.enc_row(("options", first)), *entries, *statement_rows()]
+    if plan.get("later_split"):
+        return wire.write_stream([wire.Frame(rows), wire.Frame([wire.enc_row(("options", opts)), *statement_rows(True)])],
+                                 True)
+    rows += [wire.enc_row(("options", opts)), *statement_rows(True)]
     return wire.write_stream([wire.Frame(rows)], plan["delimited"])
 
 
@@ -265,13 +295,15 @@ def optimized_side(plan, sim):
     for c, (what, detail) in zip(plan["cases"], res["out"]):
         should_accept = permitted(c["physical"], c["logical"]) and c["defect"] == "none"
         sim.event("opt_case", c["physical"], c["logical"], c["defect"], what)
-        keys.add(("opt", c["physical"], c["logical"], c["defect"], c["integration"]))
+        keys.add(("opt", c["physical"], c["logical"], c["defect"], c["integration"], c.get("position")))
         sig = {"defect": c["defect"], "interpreter": "python -O"}
+        if c.get("position") == "later":
+            sig["position"] = "later"
         if should_accept and what != "accepted":
-            v.setdefault(("r", c["defect"]), {"clause": "C13.reader_refuses_permitted", "sig": sig,
+            v.setdefault(("r", c["defect"], c.get("position")), {"clause": "C13.reader_refuses_permitted", "sig": sig,
                                               "msg": f"under python -O: {c} -> {what} {detail}"})
         if not should_accept and what == "accepted":
-            v.setdefault(("a", c["defect"]), {"clause": "C13.reader_accepts_forbidden", "sig": sig,
+            v.setdefault(("a", c["defect"], c.get("position")), {"clause": "C13.reader_accepts_forbidden", "sig": sig,
                                               "msg": f"under python -O (assert statements removed) the reader accepted "
                                                      f"physical={c['physical']} logical={c['logical']} "
                                                      f"names={c['names']} version={c['version']} and returned "
@@ -287,20 +319,14 @@ def pairs_side(plan, sim):
     should_accept = ok_pair and defect == "none"
     sim.count({"small_names": "small_name_table_sent", "big_table": "big_table_sent",
                "version": "bad_version_sent"}.get(defect, "permitted_pairs_sent" if ok_pair else "forbidden_pairs_sent"))
-    opts = refenc.make_opts(ph, lt, plan["names"], plan["prefixes"], plan["datatypes"], plan["version"])
     st = one_statement(ph if ph in (1, 2, 3) else 1)
     # hand-made stream: options row, entries, one statement (the reference encoder refuses invalid options)
-    rows = [wire.enc_row(("options", opts)), wire.enc_row(("prefix", 0, "http://e/")),
-            wire.enc_row(("name", 0, "s")), wire.enc_row(("name", 0, "p"))]
-    s_t, p_t, o_t = ("iri", 1, 0), ("iri", 0, 0), ("lit", "o", None)
-    if ph == 3:
-        rows += [wire.enc_row(("graph_start", ("default",))), wire.enc_row(("triple", s_t, p_t, o_t)),
-                 wire.enc_row(("graph_end",))]
-    elif ph == 2:
-        rows.append(wire.enc_row(("quad", s_t, p_t, o_t, ("default",))))
-    else:
-        rows.append(wire.enc_row(("triple", s_t, p_t, o_t)))
-    data = wire.write_stream([wire.Frame(rows)], plan["delimited"])
+    data = pair_stream(plan)
+    later = plan.get("position") == "later"
+    if later:
+        sim.count("later_options_row_sent")
+    if later and plan.get("later_split"):
+        plan = dict(plan, delimited=True)
     ref = refdec.decode_stream(data, plan["delimited"], strict=True)
     if ref.ok != should_accept:
         raise HarnessError(f"reference decoder disagrees with the table: ok={ref.ok} expected {should_accept} "
@@ -308,6 +334,8 @@ def pairs_side(plan, sim):
     integration = plan["integration"]
     v = []
     sig = {"physical": ph, "logical": lt, "defect": defect}
+    if later:
+        sig["position"] = "later"
     items, exc = [], None
     try:
         items = list(nodes.parse_flat(integration, io.BytesIO(data)))
@@ -316,7 +344,7 @@ def pairs_side(plan, sim):
     if should_accept and exc is not None:
         v.append({"clause": "C13.reader_refuses_permitted", "sig": sig,
                   "msg": f"{integration} reader raised {type(exc).__name__}: {exc}"})
-    elif should_accept and len(items) != 1:
+    elif should_accept and len(items) != (2 if later else 1):
         v.append({"clause": "C13.reader_refuses_permitted", "sig": sig, "msg": f"{len(items)} items"})
     elif not should_accept and exc is None:
         v.append({"clause": "C13.reader_accepts_forbidden", "sig": sig,
@@ -349,7 +377,7 @@ def pairs_side(plan, sim):
         elif ok_pair and defect in ("none", "version"):
             v.append({"clause": "C13.writer_refuses_permitted", "sig": sig,
                       "msg": f"writer raised {type(wexc).__name__}: {wexc}"})
-    return v, ("pair", ph, lt, defect, integration)
+    return v, ("pair", ph, lt, defect, integration, plan.get("position"), plan.get("later_split"))
 
 
 # ------------------------------------------------------------------ (c) strict
